@@ -151,8 +151,12 @@ def correspond(ctx):
 
 
 def oracle(ctx, res):
-    from toolkit.symmetric_encryption.aes import AESxCBC
+    import toolkit.symmetric_encryption as tse
     rng = ctx.rng
+
+    def AESxCBC(**kw):
+        # always through the factory, as the schemes obtain it
+        return tse.get_symmetric_encryption_implementation(rng.choice(["AES-CBC", "aes_cbc", "AESCBC"]))(**kw)
 
     def viol(sig, what, inp):
         if not any(v["signature"] == sig for v in res.violations):
@@ -173,7 +177,7 @@ def oracle(ctx, res):
                     viol("two encryptions of the same message are equal", f"len(m)={n}", inp)
                 k2 = rb(rng, kl)
                 try:   # labelled test (AES behaviour)
-                    if k2 != key and ske.Decrypt(k2, c1) == m and n > 0:
+                    if k2 != key and ske.Decrypt(k2, c1) == m:      # also for m = b'': needs the 2^-128 event D_k'(c) xor iv = 10..10
                         viol("decryption under a different key returned the message", "", inp)
                 except ValueError:
                     pass
@@ -203,6 +207,39 @@ def oracle(ctx, res):
                          {"declared": kl, "given": bl, "op": op})
                 except ValueError:
                     pass
+        # several instances with different declarations alive in one process: each enforces ITS OWN declared lengths
+        decls = [dict(key_length=kl, message_length=32), dict(key_length=kl, cipher_length=32), dict(key_length=kl),
+                 dict(key_length=kl, message_length=48), dict(key_length=kl, cipher_length=48),
+                 dict(key_length=kl, message_length=16, cipher_length=48), dict(key_length=kl, cipher_length=64)]
+        rng.shuffle(decls)
+        insts = [(d, AESxCBC(**d)) for d in decls]
+        plain = AESxCBC(key_length=kl)
+        key = rb(rng, kl)
+        for d, inst in insts:
+            for n in (0, 5, 16, 31, 32, 33, 48):
+                m = rb(rng, n)
+                clen = 16 + 16 * (n // 16 + 1)
+                ok_msg = d.get("message_length", n) == n
+                inp = {"declared": d, "msg_len": n, "created_with": [x for x, _ in insts]}
+                try:
+                    c = inst.Encrypt(key, m)
+                    if not ok_msg:
+                        viol("declared length mismatch accepted", f"Encrypt of a {n}-byte message by an instance declared {d}", inp)
+                except ValueError:
+                    if ok_msg:
+                        viol("Encrypt/Decrypt raised on valid input", f"Encrypt of a {n}-byte message refused by an instance declared {d}", inp)
+                c = plain.Encrypt(key, m)
+                ok_ct = d.get("cipher_length", clen) == clen
+                try:
+                    back = inst.Decrypt(key, c)
+                    if not ok_ct:
+                        viol("declared length mismatch accepted", f"Decrypt of a {clen}-byte ciphertext by an instance declared {d}", inp)
+                    elif back != m:
+                        viol("Decrypt(k, Encrypt(k, m)) != m", f"instance declared {d}", inp)
+                except ValueError:
+                    if ok_ct:
+                        viol("Encrypt/Decrypt raised on valid input", f"Decrypt of a {clen}-byte ciphertext refused by an instance declared {d}", inp)
+                res.evaluations += 1
         # fresh randomness over a long run on ONE instance: every IV (first 16 bytes) is used once
         ivs = {}
         key = rb(rng, kl); m = rb(rng, 5)
